@@ -92,11 +92,17 @@ class IncludeNode(Node):
 
                 if isinstance(val, Sequence) and not isinstance(val, str):
                     context.raise_for_loop_limit(len(val))
-                    for itm in val:
-                        namespace[key] = itm
-                        character_count += template.render_with_context(
-                            context, buffer, partial=True
-                        )
+                    # Loops inside the partial are nested in this one.
+                    carry = context.loop_iteration_carry
+                    context.loop_iteration_carry = carry * len(val)
+                    try:
+                        for itm in val:
+                            namespace[key] = itm
+                            character_count += template.render_with_context(
+                                context, buffer, partial=True
+                            )
+                    finally:
+                        context.loop_iteration_carry = carry
                 else:
                     namespace[key] = val
                     character_count = template.render_with_context(
@@ -137,11 +143,19 @@ class IncludeNode(Node):
 
                 if isinstance(val, Sequence) and not isinstance(val, str):
                     context.raise_for_loop_limit(len(val))
-                    for itm in val:
-                        namespace[key] = itm
-                        character_count += await template.render_with_context_async(
-                            context, buffer, partial=True
-                        )
+                    # Loops inside the partial are nested in this one.
+                    carry = context.loop_iteration_carry
+                    context.loop_iteration_carry = carry * len(val)
+                    try:
+                        for itm in val:
+                            namespace[key] = itm
+                            character_count += (
+                                await template.render_with_context_async(
+                                    context, buffer, partial=True
+                                )
+                            )
+                    finally:
+                        context.loop_iteration_carry = carry
                 else:
                     namespace[key] = val
                     character_count = await template.render_with_context_async(
